@@ -171,6 +171,72 @@ def render_ace(rec: dict, platform: str, version: str = "0", noise: bool = True)
     return out
 
 
+def validate_addr(a) -> None:
+    from lib.harness import Invalid
+
+    if not isinstance(a, dict) or a.get("k") not in ("any", "allones", "host", "host0", "prefix", "wild", "group"):
+        raise Invalid()
+    if a["k"] == "group":
+        if not a.get("n") or not isinstance(a.get("m", []), list):
+            raise Invalid()
+        for m in a.get("m") or []:
+            if not (isinstance(m, list) and len(m) == 2 and all(isinstance(x, int) and 0 <= x <= ALL1 for x in m)):
+                raise Invalid()
+        return
+    if not all(isinstance(a.get(x), int) and 0 <= a[x] <= ALL1 for x in ("b", "w")):
+        raise Invalid()
+    if a["k"] == "prefix" and not R.is_contiguous(a["w"]):
+        raise Invalid()
+
+
+def validate_port(p, platform: str) -> None:
+    from lib.harness import Invalid
+
+    if p is None:
+        return
+    if not isinstance(p, dict) or p.get("op") not in R.OPERATORS or not isinstance(p.get("v"), list) or not p["v"]:
+        raise Invalid()
+    if any(not isinstance(x, int) or not 1 <= x <= 65535 for x in p["v"]):
+        raise Invalid()
+    n = len(p["v"])
+    if p["op"] in ("lt", "gt") and n != 1 or p["op"] == "range" and n != 2:
+        raise Invalid()
+    if p["op"] in ("eq", "neq") and n > (10 if platform == "ios" else 1):
+        raise Invalid()
+    if len(set(p["v"])) != n and p["op"] in ("eq", "neq"):
+        raise Invalid()
+
+
+def validate_rec(rec, platform: str) -> None:
+    """Records produced by the minimiser may leave the grammar: reject them (Invalid)."""
+    from lib.harness import Invalid
+
+    if not isinstance(rec, dict) or rec.get("action") not in ("permit", "deny"):
+        raise Invalid()
+    if not isinstance(rec.get("proto"), int) or not 0 <= rec["proto"] <= 255:
+        raise Invalid()
+    if not isinstance(rec.get("seq", 0), int) or not 0 <= (rec.get("seq") or 0) <= R.SEQ_MAX:
+        raise Invalid()
+    validate_addr(rec.get("src"))
+    validate_addr(rec.get("dst"))
+    for side in ("sp", "dp"):
+        validate_port(rec.get(side), platform)
+        if rec.get(side) is not None and rec["proto"] not in (6, 17):
+            raise Invalid()
+    flags = rec.get("flags") or []
+    if flags and rec["proto"] != 6:
+        raise Invalid()
+    if any(f not in TCP_FLAGS + ["established"] for f in flags) or len(set(flags)) != len(flags):
+        raise Invalid()
+    if any(x not in ("log", "log-input") for x in rec.get("logs") or []):
+        raise Invalid()
+    if not isinstance(rec.get("opq") or [], list) or not isinstance(rec.get("pn", -1), int):
+        raise Invalid()
+    ws = rec.get("ws")
+    if ws is not None and (not isinstance(ws, list) or not ws or any(not isinstance(x, int) or x < 0 for x in ws)):
+        raise Invalid()
+
+
 def rec_rule(rec: dict) -> R.Rule:
     opts = tuple(rec.get("flags") or []) + tuple(rec.get("opq") or []) + tuple(rec.get("logs") or [])
     return R.Rule(rec.get("seq") or 0, rec["action"], rec["proto"], addr_ref(rec["src"]), addr_ref(rec["dst"]),
@@ -355,6 +421,14 @@ def mutate_addr(draw, a: dict, kmax: int = 4, groups=False):
             w2 &= ~(1 << i)
             if draw(st.booleans()):
                 b2 |= 1 << i
+        if len(R.nc_bits(w2)) > kmax:
+            # keep it simple: shorten the trailing run from the top instead
+            low = R.trailing_ones(wild)
+            cut = draw(st.integers(1, min(3, low))) if low else 0
+            w2 = wild & ~(((1 << cut) - 1) << (low - cut)) if cut else wild
+            b2 = base
+            if len(R.nc_bits(w2)) > kmax:
+                return dict(a)
         return _addr_from_pair(draw, (b2 & ~w2 & ALL1, w2), kmax)
     if how == "wide":
         zero = [i for i in range(32) if not wild >> i & 1]
